@@ -98,10 +98,17 @@ def run_sequence(calls):
         obs = BaseObserver(ScriptedEmitter, timeout=1)
         hs = [Rec(0), Rec(1)]
 
-        def mkwatch(w):
-            return ObservedWatch(WATCHES[w][0], recursive=WATCHES[w][1], event_filter=wfilter(w))
+        import pathlib
 
-        for c in calls:
+        def spell(w, k):
+            # the same watch is named by a str at even call positions and by a pathlib.Path at odd ones: `ObservedWatch`
+            # normalises both to one path, so they are ONE watch (one emitter, one handler set)
+            return pathlib.Path(WATCHES[w][0]) if k % 2 else WATCHES[w][0]
+
+        def mkwatch(w, k=0):
+            return ObservedWatch(spell(w, k), recursive=WATCHES[w][1], event_filter=wfilter(w))
+
+        for k, c in enumerate(calls):
             ScriptedEmitter.plan = {"ctor": set(), "start": set()}
             try:
                 if c[0] == "schedule":
@@ -109,13 +116,13 @@ def run_sequence(calls):
                         ScriptedEmitter.plan["ctor"].add(c[2])
                     elif c[3] == "s":
                         ScriptedEmitter.plan["start"].add(c[2])
-                    obs.schedule(hs[c[1]], WATCHES[c[2]][0], recursive=WATCHES[c[2]][1], event_filter=wfilter(c[2]))
+                    obs.schedule(hs[c[1]], spell(c[2], k), recursive=WATCHES[c[2]][1], event_filter=wfilter(c[2]))
                 elif c[0] == "unschedule":
-                    obs.unschedule(mkwatch(c[1]))
+                    obs.unschedule(mkwatch(c[1], k))
                 elif c[0] == "add":
-                    obs.add_handler_for_watch(hs[c[1]], mkwatch(c[2]))
+                    obs.add_handler_for_watch(hs[c[1]], mkwatch(c[2], k))
                 elif c[0] == "remove":
-                    obs.remove_handler_for_watch(hs[c[1]], mkwatch(c[2]))
+                    obs.remove_handler_for_watch(hs[c[1]], mkwatch(c[2], k))
                 elif c[0] == "uall":
                     obs.unschedule_all()
                 elif c[0] == "start":
